@@ -959,10 +959,12 @@ def r07_15(run, model):
                       ("trait", r"trait_defs")):
         n += 1
         rewrites = False
-        for loop in S.find(f.body, "For"):
-            lt = S.norm_ws(run.facts.text(MONO, loop["body"]["sp"]))
-            if "collapse_type_apps" in lt and re.search(acc, lt):
-                rewrites = True
+        # mono() itself or the phase functions it is split into
+        for g in model.scope_fns(f):
+            for loop in S.find(g.body, "For"):
+                lt = S.norm_ws(run.facts.text(MONO, loop["body"]["sp"]))
+                if "collapse_type_apps" in lt and re.search(acc, lt):
+                    rewrites = True
         run.ob("R07.15", f"mono|field types of the retained {what} definitions are collapsed" if what != "trait" else "mono|method signatures of the trait definitions are collapsed",
                rewrites, site(MONO, f.node["sp"]),
                f"a loop in mono() that rewrites {what} definitions through collapse_type_apps: {rewrites}",
